@@ -647,70 +647,111 @@ func checkNotification(c *core.Ctx, rule string, lib []*ssa.Function) {
 	}
 	c.Check(okStopped && badStopped == "", rule, "DefaultHandler.Run", "cancellation ⇒ stopped event before Run returns", run.Pos(), "Trigger(EventStopped) on the ctx.Done() branch", "no stopped notification: "+badStopped)
 	c.Check(okDisc && badDisc == "", rule, "DefaultHandler.Run", "connection error ⇒ disconnect event before Run returns", run.Pos(), "errors.Is(err, ErrConnClosed) ⇒ Trigger(EventDisconnect)", "no disconnect notification: "+badDisc)
-	// StopWithError call sites: tabled
-	allowed := map[string]string{
-		"serve/serve$2":   "acceptor: the connection-serve goroutine reports a read error (wrapped with ErrConnClosed); Run does not depend on this goroutine",
-		"Serve/Serve$1$1": "initiator: deferred report of the read error by the connection-serve goroutine",
-		"Serve/Serve$4$2": "initiator: local close while the handler is still running",
-		"Serve/Serve$6":   "initiator: after all goroutines have ended (the drainer is running)",
+	// StopWithError is an unbuffered, uncancellable send to the handler loop. A call site is harmless only in a goroutine that
+	// the handler loop never waits for: not the goroutine that runs the loop, not the writer (the loop's sends wait for it to
+	// drain the queue) and not the forwarder (the loop is its consumer) — or in the serve function itself after its goroutines
+	// have ended. Sites in the goroutine that runs the connection reader must wrap the read error with ErrConnClosed.
+	calls := func(f *ssa.Function, pred func(cc *ssa.CallCommon) bool) bool {
+		found := false
+		for _, g := range an.WithAnon(f) {
+			an.AllInstrs(g, func(in ssa.Instruction) {
+				if cc := an.CallOf(in); cc != nil && pred(cc) {
+					found = true
+				}
+			})
+		}
+		return found
 	}
+	isRun := func(cc *ssa.CallCommon) bool {
+		if cc.IsInvoke() {
+			return cc.Method.Name() == "Run"
+		}
+		cal := an.StaticCallee(cc)
+		return cal != nil && an.FuncIs(cal, "simplefix-go", "DefaultHandler.Run")
+	}
+	isWrite := func(cc *ssa.CallCommon) bool {
+		cal := an.StaticCallee(cc)
+		return cal != nil && an.FuncIs(cal, "simplefix-go", "Conn.Write")
+	}
+	isForward := func(cc *ssa.CallCommon) bool {
+		if cc.IsInvoke() {
+			return cc.Method.Name() == "ServeIncoming"
+		}
+		cal := an.StaticCallee(cc)
+		return cal != nil && an.FuncIs(cal, "simplefix-go", "DefaultHandler.ServeIncoming")
+	}
+	isConnServe := func(cc *ssa.CallCommon) bool {
+		cal := an.StaticCallee(cc)
+		return cal != nil && an.FuncIs(cal, "simplefix-go", "Conn.serve")
+	}
+	wrapsConnClosed := func(f *ssa.Function) bool {
+		wrapped := false
+		for _, g := range an.WithAnon(f) {
+			an.AllInstrs(g, func(i2 ssa.Instruction) {
+				if call, ok := i2.(*ssa.Call); ok && an.CalleeIs(&call.Call, "fmt", "Errorf") {
+					if f, ok := an.ConstString(call.Call.Args[0]); ok && strings.Contains(f, "%w") {
+						if elems, ok := an.SliceElems(call.Call.Args[1]); ok {
+							for _, e := range elems {
+								if strings.HasSuffix(an.Render(e), "ErrConnClosed") {
+									wrapped = true
+								}
+							}
+						}
+					}
+				}
+			})
+		}
+		return wrapped
+	}
+	nSites := 0
 	for _, fn := range lib {
 		an.AllInstrs(fn, func(in ssa.Instruction) {
 			cc := an.CallOf(in)
 			if cc == nil || !cc.IsInvoke() || cc.Method.Name() != "StopWithError" {
 				return
 			}
+			nSites++
 			root := fn
+			body := fn // the goroutine body: the outermost function literal below the serve function
 			for root.Parent() != nil {
+				body = root
 				root = root.Parent()
 			}
-			key := root.Name() + "/" + fn.Name()
-			why, ok := allowed[key]
-			ob := c.Ob(rule, key, "StopWithError call site", in.Pos())
-			if !ok {
-				ob.Fail("StopWithError is an unbuffered, uncancellable send to the handler loop; this call site is not in the table of sites shown not to be needed by Run for its own progress (a writer or dispatcher that waits here deadlocks with a handler waiting for it)")
-				return
+			role := "goroutine of " + root.Name()
+			if fn == root {
+				role = root.Name() + " itself"
 			}
-			// read-error sites must wrap the error with ErrConnClosed
-			if key == "serve/serve$2" || key == "Serve/Serve$1$1" {
-				wrapped := false
-				an.AllInstrs(fn.Parent(), func(i2 ssa.Instruction) {
-					if call, ok := i2.(*ssa.Call); ok && an.CalleeIs(&call.Call, "fmt", "Errorf") {
-						if f, ok := an.ConstString(call.Call.Args[0]); ok && strings.Contains(f, "%w") {
-							if elems, ok := an.SliceElems(call.Call.Args[1]); ok {
-								for _, e := range elems {
-									if strings.HasSuffix(an.Render(e), "ErrConnClosed") {
-										wrapped = true
-									}
-								}
-							}
+			ob := c.Ob(rule, root.Name(), "StopWithError call site in a "+role+" that the handler loop does not wait for", in.Pos())
+			switch {
+			case fn == root:
+				// in the serve function: must come after the wait for its goroutines
+				waited := false
+				an.AllInstrs(root, func(i2 ssa.Instruction) {
+					if call, ok := i2.(*ssa.Call); ok {
+						if cal := an.StaticCallee(&call.Call); cal != nil && cal.Name() == "Wait" && an.Dominates(call, in) {
+							waited = true
 						}
 					}
 				})
-				if fn.Parent() == root {
-					// acceptor: closure serve$2 itself
-					an.AllInstrs(fn, func(i2 ssa.Instruction) {
-						if call, ok := i2.(*ssa.Call); ok && an.CalleeIs(&call.Call, "fmt", "Errorf") {
-							if f, ok := an.ConstString(call.Call.Args[0]); ok && strings.Contains(f, "%w") {
-								if elems, ok := an.SliceElems(call.Call.Args[1]); ok {
-									for _, e := range elems {
-										if strings.HasSuffix(an.Render(e), "ErrConnClosed") {
-											wrapped = true
-										}
-									}
-								}
-							}
-						}
-					})
+				if waited {
+					ob.Ok("after Wait(): all goroutines of the connection have ended (the drainer is running)")
+				} else {
+					ob.Fail("StopWithError in %s before its goroutines are waited for: if the handler loop has ended nobody receives the error and the caller blocks forever", root.Name())
 				}
-				if !wrapped {
-					ob.Fail("the read error handed to the handler is not wrapped with ErrConnClosed (%%w): Run would not raise the disconnect event")
-					return
-				}
+			case calls(body, isRun):
+				ob.Fail("the goroutine that runs the handler loop reports an error to that loop: the send can never be received")
+			case calls(body, isWrite):
+				ob.Fail("the writer goroutine waits in StopWithError: the handler loop, blocked on a full outgoing queue that only the writer drains, never receives it (deadlock)")
+			case calls(body, isForward):
+				ob.Fail("the forwarder goroutine waits in StopWithError while the handler loop may be waiting for the writer or for it")
+			case calls(body, isConnServe) && !wrapsConnClosed(body):
+				ob.Fail("the read error handed to the handler is not wrapped with ErrConnClosed (%%w): Run would not raise the disconnect event")
+			default:
+				ob.Ok("a goroutine that neither runs the loop, writes the socket nor forwards input")
 			}
-			ob.Ok("%s", why)
 		})
 	}
+	c.Check(nSites >= 3, rule, "", "StopWithError call sites found", token.NoPos, fmt.Sprint(nSites), fmt.Sprintf("%d sites (4 confirmed: reader goroutines of both serve functions, the initiator's watcher, after Wait)", nSites))
 }
 
 // checkLockOrder (Z7a): the lock-acquisition order over all call edges is acyclic.
